@@ -326,7 +326,9 @@ func ruleC20(c *Ctx) {
 			// a wrapped or differently opened reader (bufio, OpenFile, Reset) reads the same bytes:
 			// a different term is not evidence; only a reader that does not come from the path at all is
 			st, why = unknown, "Parse reads "+short(rd.String())
-			if rd.Op != "phi" && len(opaqueParts(rd, vocabOf(wantRd))) == 0 && !rd.contains(func(x *Term) bool { return x.isParam(0) || x.Op == "alloc" || x.Op == "phi" || x.Op == "load" || x.Op == "closure" }) {
+			if rd.Op != "phi" && len(opaqueParts(rd, vocabOf(wantRd))) == 0 && !rd.contains(func(x *Term) bool {
+				return x.isParam(0) || x.Op == "alloc" || x.Op == "phi" || x.Op == "load" || x.Op == "closure"
+			}) {
 				st, why = broken, "Parse reads "+short(rd.String())+", which does not depend on the path given to Read"
 			}
 		default:
